@@ -384,7 +384,13 @@ pub struct EnumReport {
     pub samples: Vec<serde_json::Value>,
     pub failures: Vec<Failure>,
     pub panicked: Option<String>,
+    /// source location of that panic (file, line)
+    #[serde(default)]
+    pub panic_at: Option<(String, u32)>,
 }
+
+/// where the most recent panic of this process was raised
+pub static LAST_PANIC_AT: std::sync::Mutex<Option<(String, u32)>> = std::sync::Mutex::new(None);
 
 #[derive(Clone, Debug, Serialize, Deserialize)]
 pub struct ShardInput {
@@ -544,7 +550,14 @@ pub fn main_shard(runs: &[(&str, RunFn)]) {
     let input: ShardInput =
         serde_json::from_str(&std::fs::read_to_string(&args[1]).expect("read shard input")).expect("parse shard input");
     // silence panic messages of expected panics (disabled variants etc.)
-    std::panic::set_hook(Box::new(|_| {}));
+    // (only the location is kept: an uncaught panic inside derived code is told apart from one inside the harness by it)
+    std::panic::set_hook(Box::new(|info| {
+        if let Some(l) = info.location() {
+            if let Ok(mut g) = LAST_PANIC_AT.lock() {
+                *g = Some((l.file().to_string(), l.line()));
+            }
+        }
+    }));
     let mut report = ShardReport::default();
     for spec in &input.specs {
         let run = match runs.iter().find(|(n, _)| *n == spec.name) {
@@ -562,6 +575,7 @@ pub fn main_shard(runs: &[(&str, RunFn)]) {
         let res = catch(|| run(&mut ctx));
         if let Err(msg) = res {
             ctx.rep.panicked = Some(msg);
+            ctx.rep.panic_at = LAST_PANIC_AT.lock().ok().and_then(|g| g.clone());
         }
         ctx.rep.nontrivial = ctx.nontrivial_set.len() as u64;
         report.enums.push(ctx.rep);
